@@ -322,6 +322,7 @@ class Unit:
             m = self.models.type_for(name, self)
             if m: return m
         cands = [q for q in self.records if q == name or q.endswith('::' + name)]
+        if not cands: cands = [q for q in self.records if '::' in q and name.endswith('::' + q)]     # dumped through a partial filter (e.g. cabinet::Token)
         if len(cands) >= 1:
             q = sorted(cands, key=len)[0] if name not in self.records else name
             self.need_record(q)
@@ -885,6 +886,9 @@ class Unit:
         ce = None
         for c in ks:
             if self.strip_tmp(c)['kind'] == 'CXXConstructExpr': ce = self.strip_tmp(c)
+        if self.models and self.models.is_model_type(elem):
+            r = self.models.new_expr(self, n, elem)
+            if r is not None: return r
         if elem.startswith('struct '):
             if ce is None: raise Unsupported('new of record without constructor (in %s)' % self.cur)
             ctor = self.ctor_call_name(ce)
@@ -919,6 +923,9 @@ class Unit:
         if not st.endswith('*') and not n.get('isArray'):
             self.count_call('v_delete__' + st)
             return 'v_delete__%s(%s)' % (st, x)      # opaque-handle record: stub supplied by the spec
+        if st.endswith('*') and self.models and self.models.is_model_type(st[:-1].strip()):
+            nm = 'v_delete__' + st[:-1].strip()[len('struct '):]
+            self.count_call(nm); return '%s(%s)' % (nm, x)          # delete of a modelled library object: stub supplied by the spec
         if st.endswith('*') and st[:-1].strip().startswith('struct '):
             rec = st[:-1].strip()[len('struct '):]
             d = self.dtor_of_cname(rec)
@@ -1790,7 +1797,9 @@ class Unit:
                 self.flush_expr_stmt(s, '  ')
         self.ghost('entry', '  ')
         self.body_node = body
+        self.hoisted = []; hoist_at = len(self.out)
         self.stmt(body, 1)
+        if self.hoisted: self.out[hoist_at:hoist_at] = ['  ' + h for h in self.hoisted]     # model objects declared at function scope (see Sync.local_object)
         if d['kind'] == 'CXXDestructorDecl':
             self.ghost('dtor_members', '  ')
             for f in reversed(self.record_fields(rec)):
